@@ -69,6 +69,12 @@ RR_SCRIPTS = {
                               ('file', DEEP[6] + '/Y8/F.;1', 'f', None, 5), ('reopen',), ('rm_file', DEEP[6] + '/Y8/F.;1', None), ('rm_dir', DEEP[6] + '/Y8', None),
                               ('dir', DEEP[6] + '/Z8', 'z8', None), ('file', DEEP[6] + '/Z8/G.;1', 'g', None, 2049), ('dir', DEEP[6] + '/W8', 'w8', None), ('reopen',),
                               ('dir', DEEP[6] + '/V8', 'v8', None), ('file', DEEP[6] + '/V8/H.;1', 'h', None, 3)]),
+    # the user made a directory called RR_MOVED before the first relocation: it becomes the holding directory and keeps its own
+    # entries (K79: the relocation used to be refused half way for the duplicate name)
+    'rr-user-made-rr-moved': (dict(rock_ridge='1.09'), [('dir', '/RR_MOVED', 'rr_moved', None), ('file', '/RR_MOVED/U.;1', 'u', None, 4)] +
+                              [('dir', p, p.rsplit('/', 1)[1].lower(), None) for p in DEEP[:7]] +
+                              [('dir', DEEP[7], 'd8', None), ('file', DEEP[7] + '/F.;1', 'f', None, 5), ('reopen',), ('dir', DEEP[6] + '/E8', 'e8', None),
+                               ('file', DEEP[6] + '/E8/G.;1', 'g', None, 2049), ('file', '/RR_MOVED/V.;1', 'v', None, 3)]),
     # names that existed are used again, in every namespace (K77: a removed entry stayed in the list sorted by Rock Ridge name)
     'rr-joliet-name-reuse': (dict(rock_ridge='1.09', joliet=3), [('file', '/A.;1', 'foo', '/foo', 5), ('dir', '/D', 'dir', '/dir'), ('file', '/D/B.;1', 'bar', '/dir/bar', 3),
                                                                   ('rm_file', '/A.;1', '/foo'), ('file', '/C.;1', 'foo', '/foo', 7), ('rm_file', '/D/B.;1', '/dir/bar'), ('rm_dir', '/D', '/dir'),
@@ -815,7 +821,8 @@ def library_listing(c, iso, kw, iso_m, jol_m, rr_m, umodel):
         cl['iso9660'] = d == {p for p, v in iso_m.items() if v[0] == 'dir'} and f == {p for p, v in iso_m.items() if v[0] != 'dir'}
     if 'rock_ridge' in kw:
         d, f = listing(rr_path='/')
-        cl['rock-ridge'] = d - {'/rr_moved'} == {rr_path(p) for p, v in iso_m.items() if v[0] == 'dir'} and \
+        want_dirs = {rr_path(p) for p, v in iso_m.items() if v[0] == 'dir'}
+        cl['rock-ridge'] = (d if '/rr_moved' in want_dirs else d - {'/rr_moved'}) == want_dirs and \
             f == {rr_path(p) for p, v in iso_m.items() if v[0] != 'dir'}
     if 'joliet' in kw:
         d, f = listing(joliet_path='/')
